@@ -501,3 +501,23 @@ def run(eng, R):
                          "the parameter value store is created from caller input without dtype=float: integer start values make set()/fix_parameter(value) truncate")
     if n_st == 0:
         raise AnalysisError("scipy adapter: no creation of the parameter value store from caller input found")
+    # stores of (low, high) tuples (entries may be None) must stay lists: a numpy array of them takes the dtype of the first snapshot (integer limits truncate later ones)
+    tuple_fields = set()
+    scls = p.find_class(SC)
+    sfuncs = [f for f in eng.p.all_functions() if getattr(f, "cls", None) is scls]
+    for f in sfuncs:
+        for st in ast.walk(f.node):
+            if isinstance(st, ast.Assign) and isinstance(st.targets[0], ast.Subscript) and self_attr(st.targets[0].value):
+                v = st.value
+                if isinstance(v, ast.Tuple) or (isinstance(v, ast.Name) and "bounds" in v.id):
+                    tuple_fields.add(self_attr(st.targets[0].value))
+    if "_par_bounds" not in tuple_fields:
+        raise AnalysisError("scipy adapter: element stores of parameter bounds not found")
+    for fld in sorted(tuple_fields):
+        bad = []
+        for f in sfuncs:
+            for c in ast.walk(f.node):
+                if isinstance(c, ast.Call) and _txt(c.func) in ("np.array", "np.asarray") and c.args and self_attr(c.args[0]) == fld:
+                    bad.append("%s:%d" % (f.qualname, c.lineno))
+        R.ob("S-scipy", "%s:%s stays a list" % (SC, fld), not bad, (scls.module.relpath, 0),
+             "the list of (low, high) tuples in %s is converted to a numpy array (%s): with integer limits the array is integer typed, later limits are truncated and (None, None) cannot be stored" % (fld, ", ".join(bad)))
